@@ -312,6 +312,25 @@ pub fn run(env: &Env, known: &Known, started: Instant, replayed: u64, replay_vio
     }
     rr.stats.counters.insert("faulted_documents_through_the_binary".into(), cli_runs);
     translate::remove_foreign_types_file();
+    // probe of the known finding: a lone `separator: false` is in neither output
+    {
+        let qml = "import qmluic.QtWidgets\nQMenu {\n    QAction { separator: false }\n}\n";
+        let t = translate(qml, "T", Mode::Generate);
+        rr.stats.evaluations += 1;
+        if t.accepted() {
+            let in_ui = t.ui_str().map(|u| u.contains("eparator")).unwrap_or(false);
+            let in_header = t.header_str().map(|h| h.contains("setSeparator")).unwrap_or(false);
+            if !in_ui && !in_header {
+                let key = "c04-lone-separator-false-dropped";
+                if known.is_listed_known(PID, key) {
+                    known.announce(PID, key);
+                    *rr.stats.known_hits.entry(key.to_owned()).or_default() += 1;
+                } else {
+                    rr.violations.push(Violation { failure: Failure { key: key.into(), what: "binding `separator: false` of a lone action is in neither output and not diagnosed".into(), detail: json!({"qml": qml}) }, choices: None, part: "probe".into() });
+                }
+            }
+        }
+    }
     let ev = Evidence {
         env, pid: PID, level: "exploration",
         rule: "accepted family: object trees of 1-25 objects decorated with up to 4 constant bindings per object from the whole catalogue (scalars, gadgets, palettes, brushes, icons, cursors, pixmaps, key sequences, string lists, model, default_, header maps, contents margins, attached tab properties), dynamic bindings and 1-3 handlers on half of the eligible objects, and mixed gadget maps (constant + dynamic members); oracle: every constant binding is in the decoded .ui with exactly its value and has no update function; every dynamic binding has exactly one update function calling its setter on exactly its object, a BindingIndex entry and no <property>; every handler has exactly one connect on its object and signal; BindingIndex count = update function count. Faulted family: the same documents with one planted fault of 17 kinds (unknown property/signal/attached type/object type, attached type without attached class, unconsumed attached property, ill-typed constant, ill-typed dynamic expression, unsupported expression, dynamic binding to a read-only property, handler on a non-signal, handler as map, invalid colour, duplicate property/attached binding, non-class object type): not accepted and an error diagnostic within the text of the faulty binding; through the real binary in a scratch project with pre-existing outputs: exit status 1 and every file byte-, inode- and mtime-identical, nothing created. Non-trivial: accepted = >= 3 catalogue kinds plus a dynamic binding; faulted = fault not on the root or document with >= 4 objects; distinct by text hash.",
